@@ -1074,6 +1074,11 @@ SDcreate(int32       fid,  /* IN: file ID */
         HGOTO_ERROR(DFE_ARGS, FAIL);
     }
 
+    /* the file must have been opened for writing */
+    if (!(handle->flags & NC_RDWR)) {
+        HGOTO_ERROR(DFE_DENIED, FAIL);
+    }
+
     /* fudge the name since its optional */
     if ((name == NULL) || (name[0] == ' ') || (name[0] == '\0'))
         name = "DataSet";
@@ -1306,6 +1311,11 @@ SDsetdimname(int32       id, /* IN: dataset ID */
         HGOTO_ERROR(DFE_ARGS, FAIL);
     }
 
+    /* the file must have been opened for writing */
+    if (!(handle->flags & NC_RDWR)) {
+        HGOTO_ERROR(DFE_DENIED, FAIL);
+    }
+
     /* get the dimension structure */
     dim = SDIget_dim(handle, id);
     if (dim == NULL) {
@@ -1494,6 +1504,11 @@ SDsetrange(int32 sdsid, /* IN: dataset ID */
         HGOTO_ERROR(DFE_ARGS, FAIL);
     }
 
+    /* the file must have been opened for writing */
+    if (!(handle->flags & NC_RDWR)) {
+        HGOTO_ERROR(DFE_DENIED, FAIL);
+    }
+
     var = SDIget_var(handle, sdsid);
     if (var == NULL) {
         HGOTO_ERROR(DFE_ARGS, FAIL);
@@ -1656,6 +1671,11 @@ SDsetattr(int32       id,    /* IN: object ID */
     /* determine what type of ID we've been given */
     if (SDIapfromid(id, &handle, &ap) == FAIL) {
         HGOTO_ERROR(DFE_ARGS, FAIL);
+    }
+
+    /* the file must have been opened for writing */
+    if (!(handle->flags & NC_RDWR)) {
+        HGOTO_ERROR(DFE_DENIED, FAIL);
     }
 
     /* still no handle ? */
@@ -2005,6 +2025,11 @@ SDsetdatastrs(int32       sdsid, /* IN: dataset ID */
         HGOTO_ERROR(DFE_ARGS, FAIL);
     }
 
+    /* the file must have been opened for writing */
+    if (!(handle->flags & NC_RDWR)) {
+        HGOTO_ERROR(DFE_DENIED, FAIL);
+    }
+
     if (handle->vars == NULL) {
         HGOTO_ERROR(DFE_ARGS, FAIL);
     }
@@ -2077,6 +2102,11 @@ SDsetcal(int32   sdsid, /* IN: dataset ID */
         HGOTO_ERROR(DFE_ARGS, FAIL);
     }
 
+    /* the file must have been opened for writing */
+    if (!(handle->flags & NC_RDWR)) {
+        HGOTO_ERROR(DFE_DENIED, FAIL);
+    }
+
     if (handle->vars == NULL) {
         HGOTO_ERROR(DFE_ARGS, FAIL);
     }
@@ -2139,6 +2169,11 @@ SDsetfillvalue(int32 sdsid, /* IN: dataset ID */
     handle = SDIhandle_from_id(sdsid, SDSTYPE);
     if (handle == NULL) {
         HGOTO_ERROR(DFE_ARGS, FAIL);
+    }
+
+    /* the file must have been opened for writing */
+    if (!(handle->flags & NC_RDWR)) {
+        HGOTO_ERROR(DFE_DENIED, FAIL);
     }
 
     if (handle->vars == NULL) {
@@ -2547,6 +2582,11 @@ SDsetdimstrs(int32       id, /* IN: dimension ID */
         HGOTO_ERROR(DFE_ARGS, FAIL);
     }
 
+    /* the file must have been opened for writing */
+    if (!(handle->flags & NC_RDWR)) {
+        HGOTO_ERROR(DFE_DENIED, FAIL);
+    }
+
     /* get the dimension structure */
     dim = SDIget_dim(handle, id);
     if (dim == NULL) {
@@ -2672,6 +2712,11 @@ SDsetdimscale(int32 id,    /* IN: dimension ID */
     handle = SDIhandle_from_id(id, DIMTYPE);
     if (handle == NULL) {
         HGOTO_ERROR(DFE_ARGS, FAIL);
+    }
+
+    /* the file must have been opened for writing */
+    if (!(handle->flags & NC_RDWR)) {
+        HGOTO_ERROR(DFE_DENIED, FAIL);
     }
 
     /* get the dimension structure */
@@ -4462,6 +4507,11 @@ SDsetdimval_comp(int32 dimid,    /* IN: dimension ID, returned from SDgetdimid *
     handle = SDIhandle_from_id(dimid, DIMTYPE);
     if (handle == NULL) {
         HGOTO_ERROR(DFE_ARGS, FAIL);
+    }
+
+    /* the file must have been opened for writing */
+    if (!(handle->flags & NC_RDWR)) {
+        HGOTO_ERROR(DFE_DENIED, FAIL);
     }
 
     /* get the dimension structure */
